@@ -27,6 +27,19 @@ from jsonpath.pointer import UNDEFINED
 from jsonpath.pointer import JSONPointer
 
 
+def _member_name(
+    parent: Mapping[Union[str, int], object], target: Union[str, int]
+) -> Union[str, int]:
+    """Return the key addressed by the pointer part _target_ in _parent_.
+
+    Pointer parts that look like array indices are parsed to `int`, but JSON
+    object member names are always strings.
+    """
+    if isinstance(target, int) and target not in parent:
+        return str(target)
+    return target
+
+
 class Op(ABC):
     """One of the JSON Patch operations."""
 
@@ -75,7 +88,7 @@ class OpAdd(Op):
             else:
                 parent.insert(int(target), self.value)
         elif isinstance(parent, MutableMapping):
-            parent[target] = self.value
+            parent[_member_name(parent, target)] = self.value
         else:
             raise JSONPatchError(
                 f"unexpected operation on {parent.__class__.__name__!r}"
@@ -116,8 +129,10 @@ class OpAddNe(OpAdd):
                 parent.append(self.value)
             else:
                 parent.insert(int(target), self.value)
-        elif isinstance(parent, MutableMapping) and target not in parent:
-            parent[target] = self.value
+        elif isinstance(parent, MutableMapping):
+            key = _member_name(parent, target)
+            if key not in parent:
+                parent[key] = self.value
         return data
 
 
@@ -151,7 +166,7 @@ class OpAddAp(OpAdd):
             else:
                 parent.insert(int(target), self.value)
         elif isinstance(parent, MutableMapping):
-            parent[target] = self.value
+            parent[_member_name(parent, target)] = self.value
         else:
             raise JSONPatchError(
                 f"unexpected operation on {parent.__class__.__name__!r}"
@@ -184,7 +199,7 @@ class OpRemove(Op):
         elif isinstance(parent, MutableMapping):
             if obj is UNDEFINED:
                 raise JSONPatchError("can't remove nonexistent property")
-            del parent[self.path.parts[-1]]
+            del parent[_member_name(parent, self.path.parts[-1])]
         else:
             raise JSONPatchError(
                 f"unexpected operation on {parent.__class__.__name__!r}"
@@ -222,7 +237,7 @@ class OpReplace(Op):
         elif isinstance(parent, MutableMapping):
             if obj is UNDEFINED:
                 raise JSONPatchError("can't replace nonexistent property")
-            parent[self.path.parts[-1]] = self.value
+            parent[_member_name(parent, self.path.parts[-1])] = self.value
         else:
             raise JSONPatchError(
                 f"unexpected operation on {parent.__class__.__name__!r}"
@@ -260,7 +275,7 @@ class OpMove(Op):
         if isinstance(source_parent, MutableSequence):
             del source_parent[int(self.source.parts[-1])]
         if isinstance(source_parent, MutableMapping):
-            del source_parent[self.source.parts[-1]]
+            del source_parent[_member_name(source_parent, self.source.parts[-1])]
 
         # RFC 6902: a move is a remove followed by an add at the target location.
         return OpAdd(path=self.dest, value=source_obj).apply(data)
